@@ -129,6 +129,13 @@ def run(ctx):
             cases.append(("0 %s %s*" % (b, b), None, g, "EEstar/" + st))
             # E? == (E,)
             cases.append(("0 %s?" % b, sorted([0] + g.get(0, [])), g, "opt/" + st))
+            # postfix operators stacked: E+? = (E+,), E*? = (E*,), E?* and E?+ close over E or nothing
+            for s0 in range(min(n, 3)):
+                cases.append(("%d %s+?" % (s0, b), sorted([s0] + reach(g, [s0], True)), g, "optplus/" + st))
+                cases.append(("%d (%s+,)" % (s0, b), sorted([s0] + reach(g, [s0], True)), g, "optplus/" + st))
+                cases.append(("%d %s*?" % (s0, b), sorted([s0] + reach(g, [s0], False)), g, "optstar/" + st))
+                cases.append(("%d %s?*" % (s0, b), reach(g, [s0], False), g, "optstar/" + st))
+                cases.append(("%d %s?+" % (s0, b), reach(g, [s0], False), g, "optplus/" + st))
             # nested closure: (E*)* reaches the same set
             cases.append(("0 (%s*)*" % b, reach(g, [0], False), g, "nested/" + st))
             cases.append(("0 (%s+)*" % b, reach(g, [0], False), g, "nested/" + st))
@@ -174,7 +181,7 @@ def run(ctx):
     ctx.cov.update({
         "evaluations": evaluations + stats["evaluations"],
         "distinct_nontrivial": len(nontrivial),
-        "rule": "closure bodies generated from graphs (%d graphs: %s 3-node graphs with out-degree <= 2, plus 5-cycle, diamond chain, tree with back edges, self-loop, 2-cycle) in five encodings (`,` in the body, captured sequence + elem, let, if-chain, `||`), every start node, `*` and `+`, several inputs in a row, E E* vs E+, E? vs (E,), nesting ((E*)*, (E+)*, (E*)+); expected = reachability computed on the graph, each node exactly once per input; non-trivial = >= 3 reachable nodes and a multi-successor node; 3 s budget per query; programs also compared with the engine model and the specification" % (len(G), "all" if not quick else "a sample of"),
+        "rule": "closure bodies generated from graphs (%d graphs: %s 3-node graphs with out-degree <= 2, plus 5-cycle, diamond chain, tree with back edges, self-loop, 2-cycle) in five encodings (`,` in the body, captured sequence + elem, let, if-chain, `||`), every start node, `*` and `+`, several inputs in a row, E E* vs E+, E? vs (E,), stacked postfix operators (E+?, (E+,), E*?, E?*, E?+), nesting ((E*)*, (E+)*, (E*)+); expected = reachability computed on the graph, each node exactly once per input; non-trivial = >= 3 reachable nodes and a multi-successor node; 3 s budget per query; programs also compared with the engine model and the specification" % (len(G), "all" if not quick else "a sample of"),
         "samples": [cases[0][0], cases[7][0], cases[-1][0]],
         "groups": dict(kinds), "violations_found": viol,
         "traces_validated_against_impl": stats["evaluations"],
